@@ -23,6 +23,27 @@ fn do_range(st: &dyn Storage, s: &str, e: &str, o: &str) -> String {
     }
 }
 
+fn fmt_list(items: &[Vec<u8>]) -> String {
+    format!("[{}]", items.iter().map(|x| hex(x)).collect::<Vec<_>>().join(","))
+}
+
+/// `Storage::range_keys` / `Storage::range_values` (provided methods that an implementation may override)
+fn do_range_kv(st: &dyn Storage, keys: bool, s: &str, e: &str, o: &str) -> String {
+    let s = unhex_opt(s);
+    let e = unhex_opt(e);
+    let o = ord(o);
+    match guarded(|| {
+        if keys {
+            st.range_keys(s.as_deref(), e.as_deref(), o).collect::<Vec<_>>()
+        } else {
+            st.range_values(s.as_deref(), e.as_deref(), o).collect::<Vec<_>>()
+        }
+    }) {
+        Some(r) => fmt_list(&r),
+        None => "panic".to_string(),
+    }
+}
+
 // ------------------------------------------------------------------------------------------------
 // C06: overlay stack
 
@@ -110,6 +131,8 @@ fn run_level(
                 });
             }
             "range" => cur.out.push(do_range(store, t[1], t[2], t[3])),
+            "keys" => cur.out.push(do_range_kv(store, true, t[1], t[2], t[3])),
+            "values" => cur.out.push(do_range_kv(store, false, t[1], t[2], t[3])),
             "base-range" => match base {
                 Some(b) => cur.out.push(do_range(b, t[1], t[2], t[3])),
                 None => cur.out.push("bad-op".into()),
@@ -181,7 +204,12 @@ pub fn gen_overlay(rng: &mut Rng, thorough: bool) -> Vec<String> {
             ops.push(format!("get {}", gen_key(rng)));
         } else if r < 90 {
             let o = if rng.chance(1, 2) { "asc" } else { "desc" };
-            ops.push(format!("range {} {} {}", gen_bound(rng), gen_bound(rng), o));
+            let op = match rng.below(8) {
+                0 => "keys",
+                1 => "values",
+                _ => "range",
+            };
+            ops.push(format!("{} {} {} {}", op, gen_bound(rng), gen_bound(rng), o));
         } else if r < 94 && depth > 0 {
             let o = if rng.chance(1, 2) { "asc" } else { "desc" };
             ops.push(format!("base-range {} {} {}", gen_bound(rng), gen_bound(rng), o));
@@ -265,6 +293,20 @@ pub fn exec_views(lines: &[String]) -> Vec<String> {
                 let k = unhex(t[3]);
                 match with_view(&mut app, t[1], t[2] == "rw", |s| s.remove(&k)) {
                     Some(()) => "ok".into(),
+                    None => "panic".into(),
+                }
+            }
+            "vkeys" | "vvalues" => {
+                let (s, e, o) = (unhex_opt(t[3]), unhex_opt(t[4]), ord(t[5]));
+                let keys = t[0] == "vkeys";
+                match with_view(&mut app, t[1], t[2] == "rw", |st| {
+                    if keys {
+                        st.range_keys(s.as_deref(), e.as_deref(), o).collect::<Vec<_>>()
+                    } else {
+                        st.range_values(s.as_deref(), e.as_deref(), o).collect::<Vec<_>>()
+                    }
+                }) {
+                    Some(r) => fmt_list(&r),
                     None => "panic".into(),
                 }
             }
@@ -393,7 +435,12 @@ pub fn gen_views(rng: &mut Rng, thorough: bool) -> Vec<String> {
             let o = if rng.chance(1, 2) { "asc" } else { "desc" };
             let s = if rng.chance(1, 2) { "~".to_string() } else { rng.pick(vkeys).to_string() };
             let e = if rng.chance(1, 2) { "~".to_string() } else { rng.pick(vkeys).to_string() };
-            ops.push(format!("vrange {} {} {} {} {}", p, rw, s, e, o));
+            let op = match rng.below(6) {
+                0 => "vkeys",
+                1 => "vvalues",
+                _ => "vrange",
+            };
+            ops.push(format!("{} {} {} {} {} {}", op, p, rw, s, e, o));
         } else {
             let k = gen_raw_key(rng, &key_paths);
             ops.push(format!("base-set {} {}", hex(&k), rng.pick(VALS)));
@@ -401,6 +448,7 @@ pub fn gen_views(rng: &mut Rng, thorough: bool) -> Vec<String> {
     }
     for p in &paths {
         ops.push(format!("vrange {} ro ~ ~ asc", p));
+        ops.push(format!("vkeys {} ro ~ ~ desc", p));
     }
     ops.push("dump-root".into());
     ops
